@@ -302,7 +302,7 @@ func genCase(rng *core.Rand, k int) *kase {
 }
 
 func (prop) Generate(rng *core.Rand, tier string, emit func(string)) {
-	n := 4000
+	n := 3000
 	k := 4
 	switch tier {
 	case "thorough":
@@ -322,6 +322,15 @@ func (prop) Generate(rng *core.Rand, tier string, emit func(string)) {
 		}
 		c := genCase(rng, kk)
 		emit(c.encode())
+	}
+	// the Caddyfile adapter's part: auto_https option, schemes and ports -> Listen / AutoHTTPS / host matchers
+	ncf := n / 3
+	cfr := rng.Fork()
+	for i := 0; i < ncf; i++ {
+		emit(genCF(cfr))
+	}
+	for _, l := range []string{"cf 0 0 0000 - 0.0.0", "cf 0 0 000 -;61 0.1.0", "cf 0 0 0000 -;61 3.1.0", "cf 0 0 0000 -;61 0.2.0", "cf 0 0 0000 -;41 0.1.0"} {
+		emit(l)
 	}
 	// malformed stream
 	for _, l := range []string{
